@@ -19,7 +19,9 @@ RULE = ('overload families biased to >=2 simultaneously matching candidates '
         'more specific than two mutually incomparable ones, mixed no_kwargs, '
         'mixed laziness) called with lattice instances; every permutation of '
         'every layer (<=4 candidates/layer, else 24 sampled) plus permuted '
-        'registration order in plain Contexts; the nearest layer spread '
+        'registration order in plain Contexts; registrations interleaved '
+        'with calls through a long-lived child context; the nearest layer '
+        'spread '
         'over 2 and 3 member contexts of a MultiContext in every member '
         'order; members built from assembled definitions, declared Python '
         'signatures or one shared callable typed per registration; '
@@ -94,6 +96,46 @@ def outcome_multi(family, call, split, perm):
         return ['exc', type(e).__name__]
 
 
+def outcome_incremental(family, call, reg_order):
+    """a long-lived session context (child of the chain) exists before the
+    overloads are registered; they are registered one by one, and the call
+    is resolved through the session after each registration; the last
+    outcome must be the one of the completed family"""
+    from yaql.language import contexts
+    base = common.std_context()
+    n = family.get('layers', 1)
+    by_layer = {}
+    parent = base
+    for layer in reversed(range(n)):
+        parent = contexts.Context(parent)
+        by_layer[layer] = parent
+    session = parent.create_child_context().create_child_context()
+    text, binds = resfam.render_call(call)
+    for k, v in binds.items():
+        session['$' + k] = v
+    out = None
+    shared = {}
+    for i in reg_order:
+        d = family['defs'][i]
+        fd = None
+        if family.get('decl') in ('signature', 'signature-reregistered'):
+            fd = resfam.build_def_declared(d)
+        elif family.get('decl') in ('shared-callable', 'shared-payload'):
+            fd = resfam.build_def_shared(
+                d, shared, tagged=family['decl'] == 'shared-callable')
+        if fd is None:
+            fd = resfam.build_def(d)
+        by_layer[d['layer']].register_function(
+            fd, exclusive=d.get('exclusive', False))
+        try:
+            r = _engine()(text).evaluate(
+                context=session.create_child_context())
+            out = ['ok', json.loads(json.dumps(r, default=_jd))]
+        except Exception as e:   # noqa
+            out = ['exc', type(e).__name__]
+    return out
+
+
 def matches_per_layer(family, call):
     """how many definitions of each layer accept the call on their own"""
     out = {}
@@ -149,6 +191,10 @@ def check_family(run, case):
     for r in regs:
         results.append(({'registration': r},
                         outcome(family, call, None, False, r)))
+    # registrations interleaved with calls through a long-lived session
+    for r in regs[:2]:
+        results.append(({'registered one by one, call after each': r},
+                        outcome_incremental(family, call, r)))
     # the nearest layer spread over the members of a MultiContext
     near = [d for d in family['defs'] if d['layer'] == 0]
     if len(near) >= 2:
